@@ -60,9 +60,14 @@ StepZoned(e) ==
   LET o == C!Outcome("read", <<>>)
       loc == Add3(o.res, OfSeconds(e.offset))
   IN
+  \* (a zoned read that came back although the model's read leaves the range: rejected, and nothing more can be said about it)
+  IF ~o.ok THEN Rej("out_of_range_must_raise") /\ UNCHANGED <<now, auto>> ELSE
   /\ Check(o.ok, "zoned_clock_read_raises")
   \* (for a real zone the driver logs the zone interval it took the offset from: it must be the one containing the instant read)
-  /\ (Has(e, "iv") => Check(Le3(e.iv.start, o.res) /\ Lt3(o.res, e.iv.end) /\ e.iv.wall = e.offset, "machinery_reference_interval_contains_the_instant_read"))
+  \*  - when the clock's own current value is the model's; when it is not, that is the finding, and the interval says nothing)
+  /\ (Has(e, "peek") => Check(e.peek = o.res, "clock_value_is_the_model_value"))
+  /\ (Has(e, "iv") /\ (Has(e, "peek") => e.peek = o.res) =>
+        Check(Le3(e.iv.start, o.res) /\ Lt3(o.res, e.iv.end) /\ e.iv.wall = e.offset, "machinery_reference_interval_contains_the_instant_read"))
   /\ Check(e.has_instant => e.instant = o.res, "zoned_clock_instant_is_wrapped_clock_instant")
   /\ Check(e.has_day => e.local[1] = loc[1], "zoned_clock_local_date_is_instant_plus_offset")
   /\ Check(e.has_time => (e.local[2] = loc[2] /\ e.local[3] = loc[3]), "zoned_clock_local_time_is_instant_plus_offset")
